@@ -74,6 +74,13 @@ const std::vector<std::string> &query_keys() {
   return k;
 }
 
+// the query keys live in exact-size heap blocks without NUL (never modified, shared by all executions)
+const vfq::HeapStr &query_block(size_t i) {
+  static std::vector<std::unique_ptr<vfq::HeapStr>> blocks;
+  if (blocks.empty()) for (auto &k : query_keys()) blocks.emplace_back(new vfq::HeapStr(k));
+  return *blocks[i];
+}
+
 // ==================================================================================================
 // part 0: family of contexts
 // ==================================================================================================
@@ -103,8 +110,9 @@ void requery(vf::Ctx &c, std::vector<Member> &fam, const std::string &hist) {
   for (size_t i = 0; i < fam.size(); ++i) {
     if (!fam[i].ctx) continue;
     Context &ctx = *fam[i].ctx;
-    for (auto &k : query_keys()) {
-      vfq::HeapStr hk(k);
+    for (size_t qi = 0; qi < query_keys().size(); ++qi) {
+      const std::string &k = query_keys()[qi];
+      const vfq::HeapStr &hk = query_block(qi);
       auto it = fam[i].model.find(k);
       MV want = it == fam[i].model.end() ? MV() : it->second;
       ContextValue got = ctx.GetValue(hk.view());
@@ -500,7 +508,9 @@ void setup(vf::Options &o) {
 }
 
 void run(vf::Ctx &c) {
-  switch (c.pick("part", 3)) {
+  // --part=N (development aid) runs a single part; registered tiers enumerate all three
+  const std::string only = c.opt().get("part");
+  switch (only.empty() ? c.pick("part", 3) : atoi(only.c_str())) {
     case 0: run_family(c); break;
     case 1: run_stack(c); break;
     default: run_threads(c); break;
